@@ -407,6 +407,136 @@ fn differential(ctx: &mut Ctx, rng: &mut Rng, pairs: u64) {
     }
 }
 
+/// Far future: clock readings centuries after the cache was built (a time_to_live of up to 1000 years
+/// is a legal configuration, so a cache must tell time correctly that long; 2^64 ns are 584.9 years).
+/// Scripted scenarios on both caches, judged by their plain expectations. The seeded histories of
+/// the other engines keep time in u64 nanoseconds and cannot go there.
+fn far_future(report: &mut Report, prop: &str) {
+    use mmv::cut::{Cut, Inner};
+    use mmv::types::{TestBuildHasher, TK, TV};
+    const YEAR: u64 = 365 * 24 * 3600;
+    let years = |n: u64| Duration::from_secs(n * YEAR);
+    let build = |kind: Kind, ttl: Option<Duration>, tti: Option<Duration>| -> Cut {
+        match kind {
+            Kind::Unsync => {
+                let mut b = mini_moka::unsync::Cache::<TK, TV, _>::builder();
+                if let Some(d) = ttl {
+                    b = b.time_to_live(d);
+                }
+                if let Some(d) = tti {
+                    b = b.time_to_idle(d);
+                }
+                let mut c = b.build_with_hasher(TestBuildHasher(HashMode::Mix(7)));
+                let clock = c.verif_install_mock_clock();
+                let base = clock.now();
+                Cut { inner: Inner::U(c), clock, base }
+            }
+            Kind::Sync => {
+                let mut b = mini_moka::sync::Cache::<TK, TV, _>::builder();
+                if let Some(d) = ttl {
+                    b = b.time_to_live(d);
+                }
+                if let Some(d) = tti {
+                    b = b.time_to_idle(d);
+                }
+                let c = b.build_with_hasher(TestBuildHasher(HashMode::Mix(7)));
+                let clock = c.verif_install_mock_clock();
+                let base = clock.now();
+                Cut { inner: Inner::S(c), clock, base }
+            }
+        }
+    };
+    let mut bad: Vec<(Vec<&'static str>, String, String)> = Vec::new();
+    let mut expect = |props: &[&'static str], sig: &str, what: String, ok: bool, report: &mut Report| {
+        report.stats.inc("far_future_expectations_checked");
+        if !ok {
+            bad.push((props.to_vec(), sig.to_string(), what));
+        }
+    };
+    for kind in [Kind::Unsync, Kind::Sync] {
+        for sync_between in [false, true] {
+            for start in [0u64, 10, 300] {
+                obj_reset();
+                report.evaluations += 1;
+                // S1: invalidate_all centuries after the inserts (at several absolute readings on both
+                // sides of multiples of 2^64 ns); inserts after it stay
+                for inval_at in [586u64, 590, 700, 1171, 1200] {
+                    let mut c = build(kind, None, None);
+                    c.clock.advance(years(start));
+                    c.insert(1, 1, 1);
+                    c.insert(2, 2, 1);
+                    if sync_between {
+                        c.sync();
+                    }
+                    let mid = 290.min(inval_at - start - 1);
+                    c.clock.advance(years(mid));
+                    let seen_mid = c.get(1);
+                    c.clock.advance(years(inval_at - start - mid));
+                    c.clock.advance(Duration::from_nanos(1));
+                    c.invalidate_all();
+                    let (g, ct, it) = (c.get(1), c.contains(2), c.iter());
+                    expect(&["C01", "C07"], "far-future:visible-after-invalidate_all", format!("{:?} cache, inserts at year {}, invalidate_all at year {}: get {:?}, contains_key {}, iter {:?}", kind, start, inval_at, g, ct, it), g.is_none() && !ct && it.is_empty(), report);
+                    expect(&["C03"], "far-future:lost-before-invalidate_all", format!("{:?} cache, insert at year {}: get {} years later returned {:?}", kind, start, mid, seen_mid), seen_mid == Some(1), report);
+                    if sync_between {
+                        c.sync();
+                    }
+                    c.insert(3, 3, 1);
+                    c.clock.advance(years(100));
+                    let g3 = c.get(3);
+                    expect(&["C03", "C07"], "far-future:insert-after-invalidate_all-lost", format!("{:?} cache: key inserted after an invalidate_all at year {} is gone 100 years later: {:?}", kind, inval_at, g3), g3 == Some(3), report);
+                    drop(c);
+                }
+                // S2: time_to_live of 600 and of 1000 years
+                for ttl_years in [600u64, 1000] {
+                    let mut c = build(kind, Some(years(ttl_years)), None);
+                    c.clock.advance(years(start));
+                    c.insert(1, 1, 1);
+                    if sync_between {
+                        c.sync();
+                    }
+                    c.clock.advance(years(ttl_years - 1));
+                    let before = (c.get(1), c.contains(1));
+                    c.clock.advance(years(1) - Duration::from_nanos(1));
+                    let last = c.contains(1);
+                    c.clock.advance(Duration::from_nanos(1));
+                    let after = (c.get(1), c.contains(1), c.iter());
+                    expect(&["C03"], "far-future:ttl-lost-early", format!("{:?} cache, ttl {} years, insert at year {}: a year before the deadline get {:?} contains_key {}, 1 ns before it contains_key {}", kind, ttl_years, start, before.0, before.1, last), before == (Some(1), true) && last, report);
+                    expect(&["C05"], "far-future:ttl-expired-visible", format!("{:?} cache, ttl {} years, insert at year {}: at the deadline get {:?} contains_key {} iter {:?}", kind, ttl_years, start, after.0, after.1, after.2), after.0.is_none() && !after.1 && after.2.is_empty(), report);
+                    drop(c);
+                }
+                // S3: time_to_idle of 600 years, kept alive by gets
+                let mut c = build(kind, None, Some(years(600)));
+                c.clock.advance(years(start));
+                c.insert(1, 1, 1);
+                c.clock.advance(years(599));
+                let g1 = c.get(1);
+                if kind == Kind::Sync {
+                    c.sync();
+                }
+                c.clock.advance(years(599));
+                let g2 = c.get(1);
+                if kind == Kind::Sync {
+                    c.sync();
+                }
+                c.clock.advance(years(600));
+                let g3 = (c.contains(1), c.get(1));
+                expect(&["C03"], "far-future:tti-lost-early", format!("{:?} cache, tti 600 years: gets 599 years apart returned {:?} and {:?}", kind, g1, g2), g1 == Some(1) && g2 == Some(1), report);
+                expect(&["C06"], "far-future:tti-expired-visible", format!("{:?} cache, tti 600 years: 600 years after the last get contains_key {} get {:?}", kind, g3.0, g3.1), !g3.0 && g3.1.is_none(), report);
+                drop(c);
+            }
+        }
+    }
+    report.distinct.entry(prop.to_string()).or_default().push(0xFA);
+    report.distinct.entry(prop.to_string()).or_default().push(0xFB);
+    for (props, sig, what) in bad {
+        report.stats.inc("violating_cases");
+        if (prop == "all" || props.iter().any(|p| *p == prop)) && !report.violations.iter().any(|v| v.get("sig").and_then(|s| s.as_str()) == Some(sig.as_str())) {
+            let v = Violation { props, sig, detail: what.clone(), op_index: 0 };
+            report.violations.push(Report::violation_json(&v, &format!("# engine cfgmon\n# far future: {}\n", what), 0));
+        }
+    }
+}
+
 fn main() {
     install_panic_hook();
     let args = Args::parse();
@@ -416,6 +546,16 @@ fn main() {
     let out = args.str("out", "");
     let mut report = Report { engine: "cfgmon".into(), ..Default::default() };
     let mut rng = Rng::new(seed ^ 0xCF6);
+    if args.u64("far-future", 0) == 1 {
+        let prop = args.str("prop", "all");
+        far_future(&mut report, &prop);
+        if out.is_empty() {
+            println!("{}", report.to_json().dump());
+        } else {
+            report.write(&out);
+        }
+        return;
+    }
     {
         let mut ctx = Ctx { report: &mut report, prop: args.str("prop", "C17"), order_base: seed.wrapping_mul(7919), orders_seen: Default::default() };
         if shard == 0 {
